@@ -99,7 +99,8 @@ pub fn cases(rng: &mut Rng, count: usize, tier: &str) -> Vec<Case> {
                 let v = loop {
                     // two tight groups and a gap (cluster-with-cluster merges), or uniform
                     let base: f32 = if clustered && (i % 2 == j % 2) { 0.0 } else { 1.0 };
-                    let k = if near { rng.below(256) } else { rng.below(1 << 22) };
+                    // enough distinct values for all pairs of the universe (the loop below needs a fresh one each time)
+                    let k = if near { rng.below(256.max(4 * (nterms * nterms) as u64)) } else { rng.below(1 << 22) };
                     let c = base + (k as f32) / (1u32 << 23) as f32;
                     if used.insert(f32_bits(c)) {
                         break c;
